@@ -18,6 +18,7 @@ RULE = ("seeded plain arrays of every numeric kind/size in both byte orders, S a
 TRUSTED = ["numpy astype between byte orders", "numpy dtype.newbyteorder"]
 ASSUMPTIONS = ["structured arrays are uniformly ordered (all multi-byte fields share one declared order)",
                "arrays are contiguous (layouts are C15's matrix)"]
+THOROUGH_ROUNDS = 20      # the thorough tier runs the generator over this many derived seeds
 REQUIRED = {"quick": {"C16.convert": 3000, "C16.predicate": 300, "C16.descr": 150},
             "thorough": {"C16.convert": 40000, "C16.predicate": 4000, "C16.descr": 2000}}
 LITTLE = sys.byteorder == "little"
